@@ -24,7 +24,8 @@ RULE = (
     'node, or nesting inside an unselected clause, or >= 3 clauses. Later rounds: explicit sibling pairs of '
     'compact blocks; @case after @else; parser / environment histories (after a failed parse, on an environment '
     'left with an open block); a foreign @end at the clause indent; property lines directly inside clauses; '
-    'ragged clause bodies. Distinct = distinct rendered text.'
+    'ragged clause bodies. Round 8: conditions that hold none; a nested block inside every clause of a block '
+    'under all truth assignments. Distinct = distinct rendered text.'
 )
 ASSUMPTIONS = [
     "conditions inside clauses only refer to nodes defined at the root before the first block",
